@@ -46,6 +46,21 @@ class _Names(object):
         self.m = m
 
 
+def mem_module():
+    """loads and stores at ANY alignment and with a store of one type followed by a load of another: correct only if the runtime copies bytes
+    (memcpy); a typed pointer access is misaligned / aliasing undefined behaviour that shows at -O2 and under -fsanitize=alignment"""
+    from ..gprobe import ProbeModule, Probe
+    pm = ProbeModule("c11mem", memory=(1, 1))
+    pm.needs_instantiate = True
+    A = W.ins("local.get", 0) + W.ins("i32.const", 0xFF) + W.ins("i32.and")            # address 0..255, odd ones included
+    pm.add(Probe("st32ldf32", [W.I32, W.I32], W.I32, A + W.ins("local.get", 1) + W.ins("i32.store", 0, 0) + A + W.ins("f32.load", 0, 0) + W.ins("i32.reinterpret_f32")))
+    pm.add(Probe("st64ld32hi", [W.I32, W.I64], W.I32, A + W.ins("local.get", 1) + W.ins("i64.store", 0, 0) + A + W.ins("i32.load", 0, 4)))
+    pm.add(Probe("stf64ld64", [W.I32, W.F64], W.I64, A + W.ins("local.get", 1) + W.ins("f64.store", 0, 0) + A + W.ins("i64.load", 0, 0)))
+    pm.add(Probe("st16ld8", [W.I32, W.I32], W.I32, A + W.ins("local.get", 1) + W.ins("i32.store16", 0, 1) + A + W.ins("i32.load8_u", 0, 2)))
+    pm.add(Probe("st32ld16s", [W.I32, W.I32], W.I32, A + W.ins("local.get", 1) + W.ins("i32.store", 0, 3) + A + W.ins("i32.load16_s", 0, 4)))
+    return pm
+
+
 def names_module():
     return _Names()
 
@@ -57,7 +72,7 @@ def compile_matrix(ctx, job):
     facts = []
     pmi, pmf = build_modules(ctx)
     pm3 = c03.build(ctx, "c11cf", 8)
-    for pm in (pmi, pmf, pm3, names_module()):
+    for pm in (pmi, pmf, pm3, names_module(), mem_module()):
         d, r = ctx.translate(pm.m.encode(), pm.modname + "x", ())
         if d is None:
             raise Undecided("translator rejected " + pm.modname)
@@ -75,7 +90,7 @@ def compile_matrix(ctx, job):
         lines = ['#include <stdio.h>', '#include <setjmp.h>', '#include <string.h>', '#include "%s.h"' % mod, "static jmp_buf jb; void trap(Trap t) { longjmp(jb, 1 + (int)t); }",
                  "static unsigned u32b(float f){unsigned u;memcpy(&u,&f,4);return u;} static unsigned long long u64b(double f){unsigned long long u;memcpy(&u,&f,8);return u;}",
                  "static float f32b(unsigned u){float f;memcpy(&f,&u,4);return f;} static double f64b(unsigned long long u){double f;memcpy(&f,&u,8);return f;}",
-                 "static %sInstance inst;" % mod, "int main(void) { int t;"]
+                 "static %sInstance inst;" % mod, "int main(void) { int t;" + (" %sInstantiate(&inst, 0);" % mod if getattr(pm, "needs_instantiate", False) else "")]
         conv_in = {W.I32: "%uu", W.I64: "%uull", W.F32: "f32b(%uu)", W.F64: "f64b(%uull)"}
         outfmt = {W.I32: ('"%u"', "(unsigned)(%s)"), W.I64: ('"%llu"', "(unsigned long long)(%s)"), W.F32: ('"%08x"', "u32b(%s)"), W.F64: ('"%016llx"', "u64b(%s)")}
         import itertools
